@@ -240,7 +240,7 @@ func Write(dir string, pkgs []*Pkg, casePrefixes []string) (*Batch, error) {
 		return nil, err
 	}
 	var mainImports, mainCalls []string
-	for _, p := range pkgs {
+	for pi, p := range pkgs {
 		pdir := filepath.Join(dir, "cases", p.Name)
 		var drv strings.Builder
 		fmt.Fprintf(&drv, "//go:build !goose\n\npackage %s\n\nimport \"%s/canon\"\n\nvar _ = canon.Emit\n\nfunc RunCases() {\n", p.Name, ModPath)
@@ -282,8 +282,10 @@ func Write(dir string, pkgs []*Pkg, casePrefixes []string) (*Batch, error) {
 		if err := core.WriteFile(filepath.Join(pdir, "zz_driver_nogoose.go"), drv.String()); err != nil {
 			return nil, err
 		}
-		mainImports = append(mainImports, fmt.Sprintf("\t%s \"%s/cases/%s\"", p.Name, ModPath, p.Name))
-		mainCalls = append(mainCalls, fmt.Sprintf("\tif only == \"\" || only == %q {\n\t\t%s.RunCases()\n\t}", p.Name, p.Name))
+		// aliased: a generated package may be NAMED like a library package (disk, sync, ...)
+		alias := fmt.Sprintf("pk%d", pi)
+		mainImports = append(mainImports, fmt.Sprintf("\t%s \"%s/cases/%s\"", alias, ModPath, p.Name))
+		mainCalls = append(mainCalls, fmt.Sprintf("\tif only == \"\" || only == %q {\n\t\t%s.RunCases()\n\t}", p.Name, alias))
 	}
 	mainSrc := "//go:build !goose\n\npackage main\n\nimport (\n\t\"os\"\n\n\t\"github.com/goose-lang/goose/machine/disk\"\n" + strings.Join(mainImports, "\n") +
 		"\n)\n\nfunc main() {\n\tdisk.Init(disk.NewMemDisk(30))\n\tonly := os.Getenv(\"VB_ONLY\")\n" + strings.Join(mainCalls, "\n") + "\n}\n"
